@@ -158,6 +158,14 @@ Theorem C04_gapfill_1jan : forall (T : Type) (NT : Num T) (raw : Z -> Z -> wrec 
     = div (add (w_tavg (raw y (ylen y))) (w_tavg (raw (y + 1) 2))) two.
 Proof. exact @gapfill_1jan_lemma. Qed.
 
+(* the monthly precipitation factor used for a day is the factor of the civil month of that day, for
+   every day of leap and non-leap years (the reader's own table is compared with this model on all
+   366 + 365 day numbers through the three real readers on every run: C04TokCorr.preco_sweep) *)
+Theorem C04_precip_factor_is_civil_month : forall (T : Type) (NT : Num T) (corr : list T) (t : date),
+  1901 <= dy t <= 2099 -> valid_date t = true ->
+  corr_value corr (corr_day (dy t) (Z.to_nat (doy t - 1))) = nth (Z.to_nat (dm t - 1)) corr one.
+Proof. exact @precip_factor_is_civil_month. Qed.
+
 (* ------------------------------------------------------------------ *)
 (* start / end inside a year (multi-year layouts): the series begins on day a of the start year,
    m complete years follow, it ends on day b of the year after them: every stored year is found
@@ -420,3 +428,4 @@ Print Assumptions C04_tok_empty_field_vanishes.
 Print Assumptions C04_tok_csv_line_characterised.
 Print Assumptions C04_tok_bad_date_skipped.
 Print Assumptions C04_tok_malformed_line_witnesses.
+Print Assumptions C04_precip_factor_is_civil_month.
